@@ -397,6 +397,51 @@ def _rule_classes():
     return _RULE_CLASSES
 
 
+class AttributeValidators(Contract):
+    """Size validators of the damped-oscillation and pfid megacomplexes: an issue iff the three lists differ in length,
+    and a megacomplex that validates can be evaluated (no shape error)."""
+
+    prop = "C20"
+    name = "AttributeValidators"
+    target = "glotaran.builtin.megacomplexes.damped_oscillation.damped_oscillation_megacomplex:validate_oscillation_parameter"
+    functions = ("glotaran.builtin.megacomplexes.pfid.pfid_megacomplex:validate_pfid_parameter", "glotaran.model.item:get_item_validator_issues")
+    strength = "S"
+    agreement_runs = 0
+
+    def cases(self, tier):
+        for kind in ("damped-oscillation", "pfid"):
+            for sizes in itertools.product((1, 2, 3), repeat=3):
+                yield {"kind": kind, "sizes": sizes}
+
+    def build(self, S, case):
+        from glotaran.builtin.megacomplexes.damped_oscillation import DampedOscillationMegacomplex
+        from glotaran.builtin.megacomplexes.pfid import PFIDMegacomplex
+
+        nl, nf, nr = case["sizes"]
+        cls = PFIDMegacomplex if case["kind"] == "pfid" else DampedOscillationMegacomplex
+        mc = cls(label="mc", labels=[f"o{i}" for i in range(nl)], frequencies=[f"f.{i}" for i in range(nf)], rates=[f"r.{i}" for i in range(nr)])
+        return {"mc": mc}
+
+    def call(self, S, case, inp):
+        from glotaran.model.item import get_item_validator_issues
+
+        return get_item_validator_issues(inp["mc"], None, None)
+
+    def observe(self, out):
+        return out if isinstance(out, Raised) else len(out)
+
+    def ensures(self, S, case, inp, out):
+        if isinstance(out, Raised):
+            yield "never_fails_with_an_internal_error", False
+            return
+        nl, nf, nr = case["sizes"]
+        consistent = nl == nf == nr
+        yield "size_issue_iff_the_three_lists_differ_in_length", (len(out) == 0) == consistent and len(out) <= 1
+        if out:
+            text = out[0].to_string()
+            yield "issue_names_the_three_sizes", f"labels ({nl})" in text and f"frequencies ({nf})" in text and f"rates ({nr})" in text
+
+
 class Generated(Contract):
     prop = "C20"
     name = "Generated"
